@@ -80,6 +80,7 @@ def fmtEv (e : Ev Nat) : String :=
     | .finalize => "fin"
     | .edit _ _ => "edit"
     | .setFlag => "flag"
+    | .ioctl => "ioctl"
   match e.fault with
   | none => base
   | some (x, after) => base ++ (if after then "!a:" else "!b:") ++ fmtExc x
@@ -99,6 +100,23 @@ def junk : PyAttrs Nat := { rest := 99, echo := true, icanon := false, vmin := 7
 def exec (owner : Owner) (p : Prog) (A : KAttrs Nat) (plan : Option (Nat × Exc × Bool)) : String :=
   fmtRes owner (TIV.C13.run p (planBudget plan) (World.init A (fun _ => junk)))
 
+/-- one constituent of a composite query function -/
+def pItem : P Prog := do
+  let t ← word
+  match t with
+  | "qt" => do let (neg, steps, e) ← pTimed; pure (queryTerminal true neg steps e)
+  | "rt" => do let min ← nat; let echo ← bool; let s ← pScript; pure (readTty min echo s)
+  | "io" => pure cellSizeIoctl
+  | _ => failure
+
+/-- composite: `cleanup` = the fault landed on some constituent's (possibly nested) restoring tcsetattr -/
+def execSeq (p : Prog) (A : KAttrs Nat) (plan : Option (Nat × Exc × Bool)) : String :=
+  let r := TIV.C13.run p (planBudget plan) (World.init A (fun _ => junk))
+  let tr := String.intercalate "," (r.w.trace.reverse.map fmtEv)
+  let fired := match r.b with | .fired _ => true | _ => false
+  let incl := match r.b with | .fired (.cleanup _) => true | _ => false
+  s!"ok {if tr.isEmpty then "-" else tr} out={fmtOutcome r.out} attrs={fmtPy r.w.attrs.toPy} fired={fmtBool fired} cleanup={fmtBool incl}"
+
 def handler : Handler := fun op args =>
   match op with
   | "rt" => Wire.run (do
@@ -110,6 +128,9 @@ def handler : Handler := fun op args =>
   | "draw" => Wire.run (do
       let A ← pAttrs; let hide ← bool; let nei ← bool; let body ← pBody; let plan ← pPlan
       pure (exec .draw (draw hide nei body) A plan)) args
+  | "seq" => Wire.run (do
+      let A ← pAttrs; let items ← listOf pItem; let plan ← pPlan
+      pure (execSeq (items.foldr (fun p k => p ;; k) .skip) A plan)) args
   | _ => none
 
 end TIV.C13
